@@ -3,7 +3,7 @@
    `run g pf (init c) h` is the state after history h; g = true is the code WITH the first-wins guard in
    _set_final_result/_set_final_exception (the repaired driver), g = false the code without it. *)
 From Coq Require Import ZArith List Bool Lia.
-From Verif Require Import FutureState FutureOnce C14_proofs FutureCbLock C14_lock_proofs.
+From Verif Require Import FutureState FutureOnce C14_proofs FutureCbLock C14_lock_proofs C14_own_proofs.
 Import ListNotations.
 Local Open Scope Z_scope.
 
@@ -102,4 +102,23 @@ Example C14_shutdown_before_answer :
   /\ pairs (run true true (init w_cfg1) [AddCb; Send; Shutdown; Resp 0 RSchema]) = [mkPair [1] []]
   /\ all_answered (run true true (init w_cfg1) [AddCb; Send; Resp 0 RSchema]) = false
   /\ pairs (run true true (init w_cfg1) [AddCb; Send; Resp 0 RSchema; RunRefresh 0]) = [mkPair [1] []].
+Proof. vm_compute. repeat split. Qed.
+
+(* ---- other statements on the same connection (stream ids are recycled): whatever (_connection, _req_id) name is a request this
+   future sent itself on that connection, and it stops naming it once the answer is processed (clear_req) or the send was refused
+   (query_gen, PSendFail).  So _on_timeout, which unregisters and orphans that stream, never touches another statement's request. *)
+Theorem C14_points_at_own_request : forall g pf c h r,
+  cur_req (run g pf (init c) h) = Some r ->
+  exists host, nth_error (map ahost (attempts (run g pf (init c) h))) r = Some host /\ cur_conn (run g pf (init c) h) = Some host.
+Proof. intros g pf c h. apply Own_run, Own_init. Qed.
+Print Assumptions C14_points_at_own_request.
+
+(* re-prepare: UNPREPARED -> _reprepare on the executor -> PREPARE -> its answer -> _execute_after_prepare -> re-execute;
+   a session shut down while the PREPARE is in flight fails the future instead of dropping the hand-off *)
+Example C14_reprepare :
+  let h := [AddCb; Send; Resp 0 RUnprepared; Run 0] in
+  all_answered (run true true (init w_cfg1) h) = false
+  /\ pairs (run true true (init w_cfg1) (h ++ [PResp 1 PPrepared; Run 0; Resp 2 (RRows false)])) = [mkPair [12] []]
+  /\ pairs (run true true (init w_cfg1) (h ++ [Shutdown; PResp 1 PPrepared])) = [mkPair [] [5]]
+  /\ pairs (run true true (init w_cfg1) (h ++ [PResp 1 PMismatch; Run 0])) = [mkPair [] [6]].
 Proof. vm_compute. repeat split. Qed.
